@@ -47,7 +47,7 @@ type fnResult struct {
 func (w *world) newCtx(con *Contract, fn *ssa.Function, mode string) *ctx {
 	return &ctx{w: w, con: con, fn: fn, mode: mode, seen: map[string]bool{}, hinfo: map[string]heapInfo{}, skolem: map[string]val{}, params: map[string]val{},
 		siteOrd: map[string]int{}, maxPaths: 6000, alias: map[string]string{}, assumed: map[string]bool{}, depthCap: 6,
-		cellRootType: map[int]types.Type{}, memo: map[string][]memoEntry{}, knownLen: map[string]int{}, ghostConst: map[string]term{}}
+		cellRootType: map[int]types.Type{}, lastAllocType: map[string]types.Type{}, memo: map[string][]memoEntry{}, knownLen: map[string]int{}, ghostConst: map[string]term{}}
 }
 
 // verifyFunc symbolically executes fn (the function of con, or a concrete implementation of an interface method)
@@ -94,6 +94,9 @@ func (w *world) verifyFunc(con *Contract, fn *ssa.Function, mode string, variant
 		}
 		if i == 0 && fn.Signature.Recv() != nil && v.t.s != "" && v.t.srt == sRef {
 			st.define(not(eq(v.t, null)))
+		}
+		if v.t.s != "" && v.t.srt == sRef {
+			x.noteAllocated(st, v.t)
 		}
 	}
 	for _, fv := range fn.FreeVars {
@@ -392,7 +395,7 @@ func (x *ctx) fieldInvObligations(st *state, con *Contract, penv envFn) {
 func frameExempt(k string) bool {
 	switch {
 	case k == "Len", strings.HasPrefix(k, "E:"), strings.HasPrefix(k, "G:mapP"), strings.HasPrefix(k, "G:mapV"), k == "G:mapN",
-		strings.HasPrefix(k, "G:lp"), strings.HasPrefix(k, "G:clp"), k == "G:chanSent", k == "G:wgDone", strings.HasPrefix(k, "deref."), strings.HasPrefix(k, "G:arg_"), strings.HasPrefix(k, "G:ret_"), strings.HasPrefix(k, "G:last_"):
+		k == "G:allocd", strings.HasPrefix(k, "G:lp"), strings.HasPrefix(k, "G:clp"), k == "G:chanSent", k == "G:wgDone", strings.HasPrefix(k, "deref."), strings.HasPrefix(k, "G:arg_"), strings.HasPrefix(k, "G:ret_"), strings.HasPrefix(k, "G:last_"):
 		return true
 	}
 	return false
